@@ -337,6 +337,12 @@ impl TransportHandle {
     /// This is the ID used in `P2PEvent::Message.source`, `connected_peers()`,
     /// and `send_message()`. It differs from `peer_id()` which is the app-level ID.
     pub fn transport_peer_id(&self) -> Option<String> {
+#[cfg(feature = "verif-hooks")]
+        if let Some(sock) =
+            crate::verif_hooks::socket_for(Arc::as_ptr(&self.dual_node) as usize)
+        {
+            return Some(ant_peer_id_to_string(&sock.local_id()));
+        }
         if let Some(ref v4) = self.dual_node.v4 {
             return Some(ant_peer_id_to_string(&v4.our_peer_id()));
         }
@@ -580,6 +586,12 @@ impl TransportHandle {
             "Sending message to peer {} on protocol {}",
             peer_id, protocol
         );
+#[cfg(feature = "verif-hooks")]
+        if let Some(sock) =
+            crate::verif_hooks::socket_for(Arc::as_ptr(&self.dual_node) as usize)
+        {
+            sock.send_attempt(peer_id, protocol);
+        }
 
         // Check rate limits if resource manager is enabled
         if let Some(ref resource_manager) = self.resource_manager
@@ -935,6 +947,12 @@ impl TransportHandle {
         }
         if let Some(v4) = self.dual_node.v4.as_ref() {
             handles.push(v4.spawn_recv_task(tx.clone(), self.shutdown.clone()));
+        }
+#[cfg(feature = "verif-hooks")]
+        if let Some(sock) =
+            crate::verif_hooks::socket_for(Arc::as_ptr(&self.dual_node) as usize)
+        {
+            sock.attach_inbound(tx.clone());
         }
         drop(tx);
 
@@ -1445,5 +1463,50 @@ impl TransportHandle {
     /// Insert a peer ID into the active_connections set (test helper)
     pub(crate) async fn inject_active_connection(&self, peer_id: PeerId) {
         self.active_connections.write().await.insert(peer_id);
+    }
+}
+
+// ============================================================================
+// Verification hooks (feature `verif-hooks`)
+// ============================================================================
+
+#[cfg(feature = "verif-hooks")]
+impl TransportHandle {
+    /// Transport handle whose QUIC endpoints are replaced by `socket`; no sockets are bound and
+    /// no real-network monitor tasks are started. Everything else is the production code path.
+    pub fn new_verif(
+        peer_id: PeerId,
+        socket: Arc<dyn crate::verif_hooks::VerifSocket>,
+        connection_timeout: Duration,
+        rate_limit: RateLimitConfig,
+    ) -> Self {
+        let (event_tx, _) = broadcast::channel(crate::DEFAULT_EVENT_CHANNEL_CAPACITY);
+        let dual_node = Arc::new(DualStackNetworkNode::with_transports(None, None));
+        crate::verif_hooks::register_socket(Arc::as_ptr(&dual_node) as usize, socket);
+        Self {
+            peer_id,
+            dual_node,
+            peers: Arc::new(RwLock::new(HashMap::new())),
+            active_connections: Arc::new(RwLock::new(HashSet::new())),
+            event_tx,
+            listen_addrs: RwLock::new(Vec::new()),
+            rate_limiter: Arc::new(RateLimiter::new(rate_limit)),
+            active_requests: Arc::new(RwLock::new(HashMap::new())),
+            geo_provider: Arc::new(BgpGeoProvider::new()),
+            shutdown: CancellationToken::new(),
+            resource_manager: None,
+            connection_timeout,
+            stale_peer_threshold: Duration::from_secs(TEST_STALE_PEER_THRESHOLD_SECS),
+            connection_monitor_handle: Arc::new(RwLock::new(None)),
+            keepalive_handle: Arc::new(RwLock::new(None)),
+            periodic_tasks_handle: Arc::new(RwLock::new(None)),
+            recv_handles: Arc::new(RwLock::new(Vec::new())),
+            listener_handle: Arc::new(RwLock::new(None)),
+        }
+    }
+
+    /// Number of pending request/response entries.
+    pub async fn verif_active_requests_len(&self) -> usize {
+        self.active_requests.read().await.len()
     }
 }
